@@ -136,6 +136,16 @@ def linemap_cached_for_50ms_by_length():
     edit(T, "def _map_index_to_line_and_column(text):\n    line_numbers = []", "import time as _time\n_LINEMAP = {}\n\ndef _map_index_to_line_and_column(text):\n    hit = _LINEMAP.get(len(text))\n    if hit is not None and _time.monotonic() - hit[0] < 0.05:\n        return hit[1]\n    line_numbers = []")
     edit(T, "        column_numbers.append(current_column)\n\n    return line_numbers, column_numbers", "        column_numbers.append(current_column)\n\n    _LINEMAP[len(text)] = (_time.monotonic(), (line_numbers, column_numbers))\n    return line_numbers, column_numbers")
 
+@mutant
+def active_rule_stack_popped_by_late_finalisation():
+    # "which rule are we in" for diagnostics: every rule body pushes its name on a module-level list and pops it in
+    # a `finally:`.  The suspended bodies of a call abandoned by user code are finalised only when the caller drops
+    # the exception -- possibly in the middle of another call, whose entries they then pop
+    edit('sourcer/expressions/rule.py', "                out.add_comment(f'Rule {self.name!r}')\n                self.expr.compile(out, flags)\n                out.YIELD((STATUS, RESULT, POS))",
+         "                out.add_comment(f'Rule {self.name!r}')\n                out += Code(f'_active_rules.append({self.name!r})')\n                with out.TRY():\n                    self.expr.compile(out, flags)\n                    out.YIELD((STATUS, RESULT, POS))\n                with out.FINALLY():\n                    out += Code('_active_rules.pop()')")
+    edit(T, "def _run(${ctx}text, pos, start, fullparse):\n    memo = {}\n", "_active_rules = []\n\n\ndef _run(${ctx}text, pos, start, fullparse):\n    memo = {}\n")
+    edit(T, "    _PositionInfo,\n", "    _PositionInfo,\n    _active_rules,\n")
+
 if __name__ == '__main__':
     fresh()
     only = sys.argv[2:] 
